@@ -55,7 +55,18 @@ type parser struct {
 	validDirectives []string    // a directive must be valid or it's an error
 	eof             bool        // if we encounter a valid EOF in a hard place
 	definedSnippets map[string][]Token
+
+	// which file imports which (absolute names), to refuse a file
+	// that, directly or through others, imports itself; and the number
+	// of imports expanded so far, as a last line of defence (a snippet
+	// that imports itself has no file to be recognised by)
+	importGraph map[string]map[string]bool
+	importCount int
 }
+
+// maxImports bounds the import statements expanded while one
+// configuration is parsed.
+const maxImports = 10000
 
 func (p *parser) parseAll() ([]ServerBlock, error) {
 	var blocks []ServerBlock
@@ -240,6 +251,12 @@ func (p *parser) doImport() error {
 	if p.NextArg() {
 		return p.Err("Import takes only one argument (glob pattern or file)")
 	}
+	// an import is replaced by the tokens it stands for, which are then
+	// parsed in their turn: imports that lead back to themselves would
+	// expand for ever
+	if p.importCount++; p.importCount > maxImports {
+		return p.Errf("More than %d imports expanded (last: %s): does an import lead back to itself?", maxImports, importPattern)
+	}
 	// splice out the import directive and its argument (2 tokens total)
 	tokensBefore := p.tokens[:p.cursor-1]
 	tokensAfter := p.tokens[p.cursor+1:]
@@ -285,6 +302,18 @@ func (p *parser) doImport() error {
 		// collect all the imported tokens
 
 		for _, importFile := range matches {
+			if absImported, err := filepath.Abs(importFile); err == nil {
+				if absImported == absFile || p.importReaches(absImported, absFile) {
+					return p.Errf("Import cycle: %s imports %s, which imports it (directly or through other files)", absFile, absImported)
+				}
+				if p.importGraph == nil {
+					p.importGraph = make(map[string]map[string]bool)
+				}
+				if p.importGraph[absFile] == nil {
+					p.importGraph[absFile] = make(map[string]bool)
+				}
+				p.importGraph[absFile][absImported] = true
+			}
 			newTokens, err := p.doSingleImport(importFile)
 			if err != nil {
 				return err
@@ -299,6 +328,29 @@ func (p *parser) doImport() error {
 	p.cursor--
 
 	return nil
+}
+
+// importReaches reports whether file from imports file to, directly
+// or through other files, as far as the imports seen so far tell.
+func (p *parser) importReaches(from, to string) bool {
+	seen := map[string]bool{}
+	var visit func(f string) bool
+	visit = func(f string) bool {
+		if f == to {
+			return true
+		}
+		if seen[f] {
+			return false
+		}
+		seen[f] = true
+		for next := range p.importGraph[f] {
+			if visit(next) {
+				return true
+			}
+		}
+		return false
+	}
+	return visit(from)
 }
 
 // doSingleImport lexes the individual file at importFile and returns
